@@ -702,6 +702,7 @@ extern "C" {
 pub struct ThreadFaults {
     set: extern "C" fn(i32),
     failed: extern "C" fn() -> std::os::raw::c_long,
+    jumps: Option<extern "C" fn() -> std::os::raw::c_long>,
 }
 
 pub fn thread_faults() -> Option<&'static ThreadFaults> {
@@ -712,7 +713,12 @@ pub fn thread_faults() -> Option<&'static ThreadFaults> {
         if a.is_null() || b.is_null() {
             None
         } else {
-            Some(ThreadFaults { set: std::mem::transmute::<*mut std::ffi::c_void, extern "C" fn(i32)>(a), failed: std::mem::transmute::<*mut std::ffi::c_void, extern "C" fn() -> std::os::raw::c_long>(b) })
+            let c = dlsym(std::ptr::null_mut(), b"verif_clock_jumps\0".as_ptr() as *const _);
+            Some(ThreadFaults {
+                set: std::mem::transmute::<*mut std::ffi::c_void, extern "C" fn(i32)>(a),
+                failed: std::mem::transmute::<*mut std::ffi::c_void, extern "C" fn() -> std::os::raw::c_long>(b),
+                jumps: if c.is_null() { None } else { Some(std::mem::transmute::<*mut std::ffi::c_void, extern "C" fn() -> std::os::raw::c_long>(c)) },
+            })
         }
     })
     .as_ref()
@@ -728,5 +734,9 @@ impl ThreadFaults {
     #[allow(dead_code)]
     pub fn fired(&self) -> u64 {
         (self.failed)() as u64
+    }
+    #[allow(dead_code)]
+    pub fn clock_jumps(&self) -> u64 {
+        self.jumps.map(|f| f() as u64).unwrap_or(0)
     }
 }
